@@ -198,6 +198,12 @@ APolyval1(c, x) == LET nc == SLast(c.sh) IN
         IN FoldSeq(LAMBDA acc, cf : DAdd(DMul(acc, xi), cf), DZero, [m \in 1..nc |-> At(c, Append(ci, m - 1))], 1))
 
 IsBoolNode(n) == n.dt = "b"
+\* does node k depend on an argument (i.e. can it vary with the point of differentiation)?
+RECURSIVE DepArg(_, _)
+DepArg(N, k) == N[k].op = "Arg" \/ \E i \in 1..Len(N[k].d) : DepArg(N, N[k].d[i])
+\* x^y with an exponent that varies with an argument is defined (real-valued) in a neighbourhood only for x > 0: for
+\* x <= 0 the expression is not differentiable as a function of its arguments, whichever entry carries the seed
+DPowVar(x, y) == LET r == DPow(x, y) IN IF DIsBad(r) \/ x[1][1] > 0 THEN r ELSE <<r[1], Bad>>
 
 \* ------------------------------------------------------------------ the evaluator
 \* N: program, k: node position, env: argument arrays (indexed by argument id),
@@ -218,7 +224,7 @@ Ev(N, k, env, lenv) ==
        [] op = "Product" -> IF N[n.d[1]].dt = "b" THEN AReduceLast(A(1), DAnd, DOne) ELSE AReduceLast(A(1), DMul, DOne)
        [] op = "Multiply" -> IF n.dt = "b" THEN Map2(A(1), A(2), DAnd) ELSE Map2(A(1), A(2), DMul)
        [] op = "Add" -> IF n.dt = "b" THEN Map2(A(1), A(2), DOr) ELSE Map2(A(1), A(2), DAdd)
-       [] op = "Power" -> Map2(A(1), A(2), DPow)
+       [] op = "Power" -> IF N[n.d[2]].dt = "f" /\ DepArg(N, n.d[2]) THEN Map2(A(1), A(2), DPowVar) ELSE Map2(A(1), A(2), DPow)
        [] op = "Negative" -> Map1(A(1), DNeg)
        [] op = "Reciprocal" -> Map1(A(1), DInv)
        [] op = "Absolute" -> Map1(A(1), DAbs)
